@@ -99,15 +99,48 @@ def sweep(fmt, slots, codes, switches=frozenset()):
     return stats
 
 
+def variants(seed, switches=frozenset()):
+    """Every layout variant the property names, once per run, each with a body that holds all 256 byte values (every nibble and bit pair
+    in every position): MAX and ART in each of the nine pixel modes, MGE with RGB and composite palette, CM3 with one / two pages x
+    with / without pattern block, VEF types 0, 1 and 3, HRS, PIX."""
+    stats = Stats()
+    specs = []
+    for m in model.MAX_MODES:
+        specs.append({"fmt": "max", "mode": m, "pattern": "ramp", "seed": seed, "rows": 8})  # 256 columns: 256 bytes
+        specs.append({"fmt": "max", "mode": m, "pattern": "ramp", "seed": seed + 1, "newsroom": True, "cols": 64, "rows": 32})
+        specs.append({"fmt": "max", "mode": m, "pattern": "ramp", "seed": seed + 2, "cols": 128, "rows": 16})
+    for comp in (False, True):
+        specs.append({"fmt": "mge", "composite": comp, "compressed": False, "pattern": "ramp", "seed": seed, "palette": [(5 * i + seed) % 64 for i in range(16)]})
+    for two in (False, True):
+        for nop in (False, True):
+            specs.append({"fmt": "cm3", "two_pages": two, "no_patterns": nop, "coded": False, "pattern": "ramp", "seed": seed, "palette": [(11 * i + seed) % 64 for i in range(16)]})
+    for t in (0, 1, 3):
+        specs.append({"fmt": "vef", "type": t, "squashed": False, "pattern": "ramp", "seed": seed, "palette": [(13 * i + seed) % 64 for i in range(16)]})
+    specs.append({"fmt": "hrs", "pattern": "ramp", "seed": seed, "palette": [(7 * i + seed) % 64 for i in range(16)]})
+    specs.append({"fmt": "pix", "pattern": "ramp", "seed": seed, "side": 32})
+    for spec in specs:
+        case = {"spec": spec}
+        tag = spec["fmt"] + ("_" + spec["mode"] if "mode" in spec else "") + ("_newsroom" if spec.get("newsroom") else "")
+        stats.case(key=spec, nontrivial=True, classes=["variant_" + tag], sample=spec)
+        try:
+            check_case(case)
+        except Violation as v:
+            stats.fail(v.detail, v.case)
+            return stats
+    return stats
+
+
 def plan(tier, seed, switches):
     if tier == "quick":
         return [
+            ("variants", [dict(seed=seed)]),
             ("campaign", [dict(seed=seed * 100 + 1, n=220, fmts=FAST)]
              + [dict(seed=seed * 100 + 2 + i, n=14, fmts=[f]) for i, f in enumerate(SLOW * 2)]),
             ("sweep", [dict(fmt="hrs", slots=list(range(16)), codes=list(range(64)))]
              + [dict(fmt=f, slots=[(seed + k) % 16], codes=list(range(k, 64, 16))) for f in SLOW for k in range(4)]),
         ]
     return [
+        ("variants", [dict(seed=seed * 10 + k) for k in range(8)]),
         ("campaign", [dict(seed=seed * 1000 + k, n=2000, fmts=FAST) for k in range(3)]
          + [dict(seed=seed * 1000 + 10 + k, n=460, fmts=[SLOW[k % 3]]) for k in range(13)]),
         ("sweep", [dict(fmt="hrs", slots=list(range(16)), codes=list(range(64)))]
@@ -116,4 +149,4 @@ def plan(tier, seed, switches):
 
 
 def evidence_extra(stats):
-    return {"exhaustive_part": "HRS palette sweep covers all 16 slots x 64 codes in every run; MGE/CM3/VEF sweeps are complete in the thorough tier"}
+    return {"exhaustive_part": "every layout variant named by the property (nine MAX / ART pixel modes, MGE RGB / composite, CM3 1-2 pages x pattern block, VEF types 0 1 3, HRS, PIX) is decoded in every run with a body holding all 256 byte values; HRS palette sweep covers all 16 slots x 64 codes in every run; MGE/CM3/VEF sweeps are complete in the thorough tier"}
